@@ -5,15 +5,26 @@ from bounded import techlib_drv
 
 def run(tier, seed):
     res = PropertyResult('C19', 'other',
-                         'The postcondition of TechLib.__init__ -- every brace alternative of every definition head is a cell; pin tables follow the declaration order and '
+                         'Tier P (one phase): the pin-numbering phase of TechLib.__init__ (inside the loop over the definitions: `i_idx, o_idx = 0, 0; pin_dict = dict(); for n in c.io_nodes: ...`) is '
+                         'executed symbolically for any sequence of ports of the implementation circuit (cell inputs and outputs in any order, any number, distinct names) and proved to list every port '
+                         'exactly once with its direction and its position among the ports of that direction (ghost counts CI/CO, monotone by an induction lemma): inputs and outputs are numbered '
+                         '0..n-1 in declaration order, in agreement with the implementation circuit, and nothing else is listed. Tier B (exhaustive): the postcondition of TechLib.__init__ -- every brace alternative of every definition head is a cell; pin tables follow the declaration order and '
                          'agree with the implementation ports; every purely combinational family cell computes its datasheet function on every output pin -- is evaluated on the '
                          'five built-in library texts (re-read from techlib.py on every run). The configuration space is finite and enumerated completely (all cells x all 2^n '
                          'input combinations, truth tables produced by the real LogicSim), so within the stated oracle this decides the property; it is a runtime-evaluated '
                          'contract, not a symbolic proof, and is labelled as such.')
+    try:
+        from contracts import techlib_c
+        from pyvc.verify import verify
+        res.report = verify(techlib_c.targets(), timeout_s=20 if tier == 'quick' else 60)
+    except ImportError:
+        res.report = None
     res.bounded = [techlib_drv.part()]
-    res.assumptions = ['spec.datasheet (family functions by cell and pin name, vendor conventions) is the oracle',
+    res.assumptions = ['proved part: port names of one implementation circuit are pairwise distinct (requires; circuit invariant W6 of C09, evaluated on every library cell in the bounded part); the text '
+                       'splitting, bench.parse and eliminate_1to1_forks before the phase and the brace expansion after it are outside the verified statement range; a name is an opaque value (dict key)',
+                       'spec.datasheet (family functions by cell and pin name, vendor conventions) is the oracle',
                        'cells outside the named families (tri-state, isolation, clock gates, decoders, sequential cells, fillers) are checked for names and pins only',
                        'truth tables come from the real 2-valued LogicSim (C01 ties it to the gate functions)']
-    res.trusted_base = ['bounded/techlib_drv.py', 'spec/datasheet.py', 'kyupy.logic_sim.LogicSim (see C01)']
+    res.trusted_base = ['pyvc', 'z3 5.1.0', 'bounded/techlib_drv.py', 'spec/datasheet.py', 'kyupy.logic_sim.LogicSim (see C01)']
     res.extra = {'exhaustive': True}
     return res
